@@ -23,6 +23,15 @@ CHECKS = {
  "C08": dict(engine="E1-world", category="exploration", technique="stateful property-based testing with an invariant checked after every API call",
    text="Generated histories rich in group-data updates, id rotations, merges/clears, races, rollbacks and restarts; after every API call the acting client's stored record (epoch, name, description, admins, image fields, Nostr group id) and relay set must equal what its MLS state says; all clients are swept at the end. Search, not proof.",
    note="Only Active groups; routing of events under the id currently in force is exercised by the same histories (messages and commits after rotations must be processed), cross-group routing is not yet generated.", ref="DESIGN.md §4 C08"),
+ "C09": dict(engine="E2-storemodel", category="exploration", technique="model-based property testing: generated storage-call sequences, three-way differential (contract model / memory / SQLite) with full-store dumps",
+   text="Generated sequences of storage writes interleaved with snapshot create / rollback / release / prune (nested, out of order, re-taken and unknown names, 1..3 groups) run on both real backends and on a plain reference model; after every step a dump of every read the contract offers (groups, relays, exporter secrets, messages in both orders, processed records, welcomes, snapshot names, all OpenMLS group data kinds, proposals, own leaf nodes, epoch key pairs, key packages, PSKs, signature and encryption keys) must equal the model's: the slice restored, the snapshot consumed, everything else untouched. Search, not proof.",
+   note="OpenMLS tables are driven through the real StorageProvider<1> trait with harness-defined blob entities keyed by the real openmls GroupId; snapshots only of existing groups; unordered results compared as sets.", ref="DESIGN.md §4 C09"),
+ "C10": dict(engine="E2-storemodel", category="exploration", technique="model-based property testing: three-way differential (contract model / memory / SQLite) over generated storage-call sequences",
+   text="Generated sequences over every storage-trait API with small key pools (overwrites, ties on both timestamps, ids reused across groups, a never-created group, boundary pagination values) run on the memory backend, the SQLite backend and a reference model written from the trait documentation; every call result (Ok value or Err-ness) and a full dump after every step must agree three-way. Search, not proof.",
+   note="Values stay inside both backends' documented limits; error wording ignored; the model is the harness's reading of the trait docs.", ref="DESIGN.md §4 C10"),
+ "C18": dict(engine="E2-storemodel + E1-world", category="exploration", technique="property-based testing: ordering/pagination laws on both backends plus a stateful invariant (last-message pointer) over generated histories",
+   text="(a) message sets with colliding timestamps on both backends: documented total order, repeatable listings, pages of size 1..3 partition the listing, out-of-range limits refused, last_message = head, agreement with the model for all (limit, offset, sort) incl. 0, MAX, MAX+1, usize::MAX; (b) message-rich generated histories with the group's cached last-message pointer compared, after every API call, to the head of the default order among non-invalidated messages. Search, not proof.",
+   note="processed_at is wall-clock with one-second granularity, so ties on it dominate; (b) judges Active groups only.", ref="DESIGN.md §4 C18"),
 }
 
 checks = []
@@ -53,7 +62,8 @@ manifest = {
         "add_only": True,
     },
     "engines": [
-        {"name": "E1-world", "path": "/verif/harness/src/world.rs", "serves_properties": ["C01", "C02", "C07", "C08"], "kind_free_text": "simulated clients + relay + delivery scheduler over the real crates; proptest plans; reference replica"},
+        {"name": "E2-storemodel", "path": "/verif/harness/src/storemodel.rs", "serves_properties": ["C09", "C10", "C18"], "kind_free_text": "reference model of the storage contract + three-way differential over generated call sequences"},
+        {"name": "E1-world", "path": "/verif/harness/src/world.rs", "serves_properties": ["C01", "C02", "C07", "C08", "C18"], "kind_free_text": "simulated clients + relay + delivery scheduler over the real crates; proptest plans; reference replica"},
     ],
     "checks": checks,
     "notes": "exit 0 held / 1 violation (VIOLATION line) / 2 inconclusive or infrastructure. Known findings: /verif/known_findings.json (witness plans are re-run on every check and printed as KNOWN-FINDING lines).",
